@@ -37,7 +37,16 @@ def gen_input(rng):
                 if set(range(1, k + 1)) - set(occ) - set(int(x.split("$")[1]) for x in lim):
                     occ += sorted(set(range(1, k + 1)) - set(occ) - set(int(x.split("$")[1]) for x in lim))
             pool = rng.sample(cols, min(len(cols), rng.randint(1, 2)))
-            conds = ["%s %s $%d" % (rng.choice(pool), rng.choice(["=", ">=", "<=", "<>"]), n) for n in occ]
+            # a placeholder may stand as the argument of a function call (also more than once, in separate calls) or
+            # bare: every occurrence is one ? mark / one bind in positional mode, one parameter per number otherwise
+            fstyle = rng.random() < 0.35
+            def cond(n):
+                c = rng.choice(pool)
+                f = rng.choice(["lower", "upper", "md5"]) if fstyle and rng.random() < 0.6 else None
+                if f is None:
+                    return "%s %s $%d" % (c, rng.choice(["=", ">=", "<=", "<>"]), n)
+                return rng.choice(["%s(%s) = %s($%d)" % (f, c, f, n), "%s = %s($%d)" % (c, f, n), "%s = %s($%d::text)" % (c, f, n)])
+            conds = [cond(n) for n in occ]
             sql = "SELECT %s FROM %s WHERE %s%s" % (rng.choice(["*", ", ".join(cols), cols[0]]), t,
                                                     (" %s " % rng.choice(["AND", "OR"])).join(conds) or "true", "".join(lim))
             kind = "select"
@@ -136,6 +145,18 @@ KNOWN = {1: "param_nested_in_function_dropped", 2: "param_twice_in_one_call_dupl
 def gen_pos_case(rng):
     c = None
     sch = Schema(rng)
+    if rng.random() < 0.12:
+        # the same placeholder in two or three places, at least one of them a function-call argument
+        t = rng.choice(list(sch.tables))
+        cols = sch.tables[t]
+        k = rng.randint(1, 3)
+        occ = list(range(1, k + 1)) + [rng.randint(1, k) for _ in range(rng.randint(1, 2))]
+        rng.shuffle(occ)
+        def cond(n):
+            c_, f = rng.choice(cols), rng.choice(["lower", "upper", "md5"])
+            return rng.choice(["%s(%s) = %s($%d)" % (f, c_, f, n), "%s = %s($%d)" % (c_, f, n), "%s = $%d" % (c_, n), "%s = %s($%d::text)" % (c_, f, n)])
+        sql = "SELECT %s FROM %s WHERE %s" % (cols[0], t, (" %s " % rng.choice(["AND", "OR"])).join(cond(n) for n in occ))
+        return {"schema": sch.sql, "queries": "-- name: Q1 %s\n%s;\n" % (rng.choice([":one", ":many"]), sql), "kind": "select", "style": "pos+func-repeat"}
     g = QGen(rng, sch, named="pos" if rng.random() < 0.9 else None)
     sql, kind = g.statement()
     cmd = rng.choice([":one", ":many"]) if kind in ("select", "cte") else rng.choice([":exec", ":execrows", ":many", ":one"])
